@@ -1,52 +1,95 @@
-import sys, random, subprocess, types, collections
-repo = sys.argv[1]; guard = sys.argv[2]; N = int(sys.argv[3]); seed = int(sys.argv[4])
-sys.path.insert(0, repo)
-from minecraft.networking import connection as C
-from minecraft.networking.packets import serverbound, Packet
-import socket as real_socket
+"""Real-code observations for the driver command `ends.seq` (lean/PyCraft/Drive/C16Ends.lean).
+
+usage:  /venv/bin/python harness/xcheck/c16ends_xcheck.py <N> <seed> [guard=1]
+prints N lines `request<TAB>expected reply`; corr/c16.py (`ends_tie`) feeds the requests to the driver.
+
+Runs as a SUBPROCESS because it replaces module globals of minecraft.networking.connection (the socket
+module and NetworkingThread.start) for the whole life of the interpreter: a real Connection on a fake
+socket module, ONE user thread, the networking threads are created but never run.  guard=1 is the current
+code (disconnect flushes inside try/except IOError)."""
+import os
+import random
+import sys
+import types
+
+sys.dont_write_bytecode = True
+sys.path.insert(0, os.environ.get('PYCRAFT_REPO', '/repo'))
+from minecraft.networking import connection as C                      # noqa
+from minecraft.networking.packets import serverbound, Packet          # noqa
+import socket as real_socket                                          # noqa
+
 
 class World:
     def __init__(self, servers, fail):
-        self.servers = servers; self.fail = fail; self.attempts = 0; self.tick = 0
-        self.threads = []; self.wire = []
+        self.servers, self.fail, self.attempts, self.tick = servers, fail, 0, 0
+        self.threads, self.wire = [], []
+
     def F(self, k):
-        if not self.fail: return False
+        if not self.fail:
+            return False
         return (self.fail[k] if k < len(self.fail) else self.fail[-1]) == '1'
 
+
 W = None
+
+
 class FakeFile:
-    def __init__(self): self.closed = False
-    def close(self): self.closed = True
+    def __init__(self):
+        self.closed = False
+
+    def close(self):
+        self.closed = True
+
+
 class FakeSocket:
     def __init__(self, *a):
-        self.idx = None; self.connected = False; self.half = False
+        self.idx, self.connected, self.half = None, False, False
+
     def connect(self, addr):
-        i = W.attempts; W.attempts += 1
+        i = W.attempts
+        W.attempts += 1
         beh = W.servers[i] if i < len(W.servers) else 'a'
-        if beh == 'r': raise ConnectionRefusedError(111, 'refused')
-        self.idx = i; self.connected = True
-    def makefile(self, *a): return FakeFile()
+        if beh == 'r':
+            raise ConnectionRefusedError(111, 'refused')
+        self.idx, self.connected = i, True         # a | d | f: accepted (d/f only matter to a thread that reads)
+
+    def makefile(self, *a):
+        return FakeFile()
+
     def send(self, data):
-        if self.half:
-            self.half = False; return len(data)
-        k = W.tick; W.tick += 1
-        if not self.connected or W.F(k): raise BrokenPipeError(32, 'Broken pipe')
+        if self.half:                              # second send of a packet (the body)
+            self.half = False
+            return len(data)
+        k = W.tick
+        W.tick += 1
+        if not self.connected or W.F(k):
+            raise BrokenPipeError(32, 'Broken pipe')
         self.half = True
         return len(data)
-    def shutdown(self, how): pass
-    def close(self): pass
 
-fake = types.SimpleNamespace(socket=FakeSocket, getaddrinfo=lambda *a: [(real_socket.AF_INET, 1, 6, '', ('127.0.0.1', 1))],
+    def shutdown(self, how):
+        pass
+
+    def close(self):
+        pass
+
+
+fake = types.SimpleNamespace(
+    socket=FakeSocket, getaddrinfo=lambda *a: [(real_socket.AF_INET, 1, 6, '', ('127.0.0.1', 1))],
     AF_INET=real_socket.AF_INET, AF_INET6=real_socket.AF_INET6, SOCK_STREAM=real_socket.SOCK_STREAM,
     SHUT_RDWR=real_socket.SHUT_RDWR, error=OSError)
 C.socket = fake
 C.NetworkingThread.start = lambda self: W.threads.append(self)
 
+
 def label(p):
     n = type(p).__name__
-    if n == 'HandShakePacket': return 0
-    if n in ('LoginStartPacket', 'RequestPacket'): return 1
+    if n == 'HandShakePacket':
+        return 0
+    if n in ('LoginStartPacket', 'RequestPacket'):
+        return 1
     return int(p.message)
+
 
 def run(servers, fail, ops):
     global W
@@ -56,44 +99,64 @@ def run(servers, fail, ops):
     outs = []
     for op in ops:
         try:
-            if op == 'c': conn.connect()
-            elif op == 's': conn.status(handle_status=False, handle_ping=False)
-            elif op == 'd0': conn.disconnect()
-            elif op == 'd1': conn.disconnect(immediate=True)
+            if op == 'c':
+                conn.connect()
+            elif op == 's':
+                conn.status(handle_status=False, handle_ping=False)
+            elif op == 'd0':
+                conn.disconnect()
+            elif op == 'd1':
+                conn.disconnect(immediate=True)
             elif op[0] == 'w':
-                p = serverbound.play.ChatPacket(); p.message = op[1:]
-                try: conn.write_packet(p)
-                except AttributeError: pass
+                p = serverbound.play.ChatPacket()
+                p.message = op[1:]
+                try:
+                    conn.write_packet(p)
+                except AttributeError:
+                    pass
                 continue
             elif op == 'q':
                 q = getattr(conn, '_outgoing_packet_queue', None)
-                if q: q.popleft()
+                if q:
+                    q.popleft()
                 continue
             outs.append('ok')
-        except C.InvalidState: outs.append('invalid')
-        except ConnectionRefusedError: outs.append('refused')
-        except OSError: outs.append('ioerror')
-        except Exception as e: outs.append('other')
+        except C.InvalidState:
+            outs.append('invalid')
+        except ConnectionRefusedError:
+            outs.append('refused')
+        except OSError:
+            outs.append('ioerror')
+        except Exception:
+            outs.append('other')
     s = conn.socket
     sock = '0' if s is None else ('1' if s.connected else 'u')
     q = getattr(conn, '_outgoing_packet_queue', None)
     qs = 'x' if q is None else (','.join(str(label(p)) for p in q) or '-')
     wire = ','.join('%d:%d' % w for w in W.wire) or '-'
     intr = ''.join('1' if t.interrupt else '0' for t in W.threads) or '-'
-    def idx(t): return 'x' if t is None else str(W.threads.index(t))
+
+    def idx(t):
+        return 'x' if t is None else str(W.threads.index(t))
     return 'ok %s sock=%s connected=%d queue=%s wire=%s ticks=%d threads=%d intr=%s nt=%s new=%s' % (
         ','.join(outs) or '-', sock, conn.connected, qs, wire, W.tick, len(W.threads), intr,
         idx(conn.networking_thread), idx(conn.new_networking_thread))
 
-rnd = random.Random(seed)
-cases = []
-for _ in range(N):
-    servers = [rnd.choice('aar') for _ in range(3)]
-    fail = ''.join(rnd.choice('01') for _ in range(rnd.randint(0, 6)))
-    ops = [rnd.choice(['c', 's', 'd0', 'd0', 'd1', 'w5', 'w6', 'q']) for _ in range(rnd.randint(1, 8))]
-    cases.append((servers, fail, ops))
-lines = ['ends.seq guard=%s servers=%s fail=%s %s' % (guard, ','.join(servers), fail or '-', ' '.join(ops)) for servers, fail, ops in cases]
-open('/tmp/c16ends/req_%s.txt' % guard, 'w').write('\n'.join(lines) + '\n')
-res = [run(*c) for c in cases]
-open('/tmp/c16ends/py_%s.txt' % guard, 'w').write('\n'.join(res) + '\n')
-print(len(res), 'cases;', sum('ioerror' in r for r in res), 'with ioerror;', sum('other' in r for r in res), 'with other')
+
+def main():
+    N, seed = int(sys.argv[1]), sys.argv[2]
+    guard = sys.argv[3] if len(sys.argv) > 3 else '1'
+    rnd = random.Random('c16ends/%s' % seed)
+    out = []
+    for _ in range(N):
+        servers = [rnd.choice('aaardf') for _ in range(rnd.randint(0, 4))]
+        fail = ''.join(rnd.choice('01') for _ in range(rnd.randint(0, 6)))
+        ops = [rnd.choice(['c', 's', 'd0', 'd0', 'd1', 'w5', 'w6', 'w%d' % rnd.randint(2, 40), 'q'])
+               for _ in range(rnd.randint(1, 9))]
+        req = 'ends.seq guard=%s servers=%s fail=%s %s' % (guard, ','.join(servers) or '-', fail or '-', ' '.join(ops))
+        out.append('%s\t%s' % (req, run(servers, fail, ops)))
+    sys.stdout.write('\n'.join(out) + '\n')
+
+
+if __name__ == '__main__':
+    main()
